@@ -81,6 +81,12 @@ def replay_file(path):
     """check.sh <id> --replay <file>: re-run a stored counterexample."""
     with open(path) as f:
         rec = json.load(f)
+    if "record" in rec or "extra" in rec:
+        # counterexamples of the SMT engine (C10, C13 number syntax): concrete (fmt, n) / (fmt, text) / text
+        from props import c10
+        out = c10.replay_record(rec)
+        print(json.dumps(out, indent=1, default=repr))
+        return 1 if out.get("reproduced") else 0
     prop, name, tier, args = rec["prop"], rec["cond"], rec.get("tier", "quick"), rec["args"]
     mod, cond = worker.load_condition(prop, name, tier)
     with tempfile.TemporaryDirectory(prefix="vf-", dir=os.path.join(VERIF, "scratch")) as tmp:
